@@ -16,7 +16,8 @@ use crate::codec::aead::CipherKind;
 use crate::codec::aead::CipherMethod;
 
 const SERVER_STREAM_TIMESTAMP_MAX_DIFF: u64 = 30;
-const MIN_PADDING_LENGTH: u16 = 0;
+// a request that carries no payload must carry padding (SIP022): a draw of 0 would leave it with neither
+const MIN_PADDING_LENGTH: u16 = 1;
 const MAX_PADDING_LENGTH: u16 = 900;
 
 fn session_sub_key(key: &[u8], salt: &[u8]) -> [u8; blake3::OUT_LEN] {
